@@ -54,8 +54,8 @@ where
     match s1.parse::<T>() {
         Err(_) => {
             let d0 = format!("{t0:?}");
-            let class = if ["and", "or", "not", "forall", "exists"].iter().any(|k| d0.contains(&format!("predicate_symbol: \"{k}\""))) {
-                "atom_named_like_keyword".to_string()
+            let class = if ["and", "or", "not", "forall", "exists"].iter().any(|k| d0.contains(&format!("predicate_symbol: \"{k}\"")) || d0.contains(&format!("Symbol(\"{k}\")"))) {
+                "keyword_used_as_identifier".to_string()
             } else {
                 offending_class::<T>(&s1)
             };
@@ -315,4 +315,27 @@ pub fn run(mode: Mode, run: &Run) {
             }
         }
     });
+}
+
+pub fn replay(mode: Mode, v: &serde_json::Value) -> i32 {
+    let r = &v["replay"];
+    let run = Run::new(if mode == Mode::C14 { "C14" } else { "C15" }, "quick");
+    let text = r["input"].as_str().or_else(|| r["formula"].as_str()).or_else(|| r["program"].as_str()).unwrap_or("");
+    let node = r["node"].as_str().unwrap_or(if mode == Mode::C14 { "program" } else { "theory" });
+    let parsed = match node {
+        "term" => round_trip::<asp::Term>(&run, node, text),
+        "program" => round_trip::<asp::Program>(&run, node, text),
+        "formula" => round_trip::<fol::Formula>(&run, node, text),
+        "integer_term" => round_trip::<fol::IntegerTerm>(&run, node, text),
+        "general_term" => round_trip::<fol::GeneralTerm>(&run, node, text),
+        "symbolic_term" => round_trip::<fol::SymbolicTerm>(&run, node, text),
+        "annotated_formula" => round_trip::<fol::AnnotatedFormula>(&run, node, text),
+        "specification" => round_trip::<fol::Specification>(&run, node, text),
+        "user_guide_entry" => round_trip::<fol::UserGuideEntry>(&run, node, text),
+        "user_guide" => round_trip::<fol::UserGuide>(&run, node, text),
+        _ => round_trip::<fol::Theory>(&run, node, text),
+    };
+    let vs = run.violations.lock().unwrap();
+    println!("replay {node} `{text}`: accepted={parsed} violations={:?}", vs.iter().map(|x| x.key.clone()).collect::<Vec<_>>());
+    if vs.is_empty() { 0 } else { 1 }
 }
